@@ -336,7 +336,11 @@ func (tx *Transaction) Collection(idx variables.RuleVariable) collection.Collect
 func (tx *Transaction) Interrupt(interruption *types.Interruption) {
 	switch tx.RuleEngine {
 	case types.RuleEngineOn:
-		tx.interruption = interruption
+		// The first interruption is final: a disruptive rule of the logging phase or a body limit
+		// reached afterwards must not replace the one every later phase call reports.
+		if tx.interruption == nil {
+			tx.interruption = interruption
+		}
 	case types.RuleEngineDetectionOnly:
 		// In DetectionOnly mode, the interruption is not actually triggered, which means that
 		// further rules will continue to be evaluated and more actions can be executed.
